@@ -857,3 +857,44 @@ Qed.
 Example post_first_same_objects :
   option_map r_objects (instantiate_post_first x_heap [] 0) = option_map r_objects (instantiate x_heap [] 0).
 Proof. vm_compute. reflexivity. Qed.
+
+(* ---- a store shared by two instance() calls: no pre-task is executed twice ------------------- *)
+Lemma execs_filter executed l :
+  execs (filter (not_executed executed) l) = filter (fun p => negb (memb p executed)) (execs l).
+Proof.
+  induction l as [|c l IH]; simpl; auto.
+  destruct c; simpl; auto. destruct (negb (memb obj executed)); simpl; rewrite IH; auto.
+Qed.
+
+Theorem store_pretasks_once : forall h c e root1 root2 r1 r2,
+  NoDup e ->
+  instantiate_store h c e root1 = Some r1 ->
+  instantiate_store h (c ++ map o_id (r_objects r1)) (e ++ execs (r_log r1)) root2 = Some r2 ->
+  NoDup (e ++ execs (r_log r1) ++ execs (r_log r2)).
+Proof.
+  intros h c e root1 root2 r1 r2 Ne E1 E2. unfold instantiate_store in E1, E2.
+  destruct (instantiate h c root1) as [x1|] eqn:I1; [|discriminate].
+  destruct (instantiate h (c ++ map o_id (r_objects r1)) root2) as [x2|] eqn:I2; [|discriminate].
+  inversion E1; subst r1. inversion E2; subst r2. simpl in *. clear E1 E2.
+  destruct (pretasks_once h c root1 x1 I1) as [N1 _].
+  destruct (pretasks_once h _ root2 x2 I2) as [N2 _].
+  rewrite !execs_filter.
+  set (a := filter (fun p => negb (memb p e)) (execs (r_log x1))).
+  rewrite List.app_assoc. apply nodup_app_disjoint.
+  - apply nodup_app_disjoint; auto.
+    + apply NoDup_filter; auto.
+    + intros x Hx Hin. apply filter_In in Hx. destruct Hx as [_ Hx]. apply negb_true_iff in Hx.
+      apply memb_false in Hx. auto.
+  - apply NoDup_filter; auto.
+  - intros x Hx Hin. apply filter_In in Hx. destruct Hx as [_ Hx]. apply negb_true_iff in Hx.
+    apply memb_false in Hx. auto.
+Qed.
+
+(* without the `executed` set: a pre-task attached to configurations created by two calls runs in both *)
+Theorem store_pretask_twice_refuted : exists h root1 root2 r1 r2 p,
+  instantiate h [] root1 = Some r1 /\ instantiate h (map o_id (r_objects r1)) root2 = Some r2 /\
+  In p (execs (r_log r1)) /\ In p (execs (r_log r2)).
+Proof.
+  exists [ xn [(x_c, VRef 1)] [2] []; xn [] [2] []; xn [] [] [] ], 1, 0. eexists. eexists. exists 2.
+  split; [vm_compute; reflexivity|]. split; [vm_compute; reflexivity|]. simpl. auto.
+Qed.
